@@ -271,7 +271,9 @@ def _check_spec(spec, pre):
             raise RuntimeError("pre-filter let an untyped document through")
         return "untyped", [], ""
     try:
-        dic = tt.load(spec)
+        # well-formed documents go through the real entry point torchtree.torchtree.main (--dry),
+        # ill-formed ones through the same calls made directly
+        dic = tt.load_main(spec) if exp["verdict"] != "error" else tt.load(spec)
         outcome, err = "accepted", None
     except JSONParseError as e:
         outcome, err = "parse_error", str(e)
@@ -388,6 +390,14 @@ def _junk_tree(cat, first):
             "x": _junk(first, False), "parameters": {"loc": "nowhere", "scale": 1.0}, "ignore": True}
 
 
+def _junk_plate(first, ignore=True):
+    """a plate whose only clone would take the id of the first object of the document"""
+    d = {"type": "Plate", "range": "0:1", "var": "i", "object": _junk(first, False)}
+    if ignore:
+        d["ignore"] = True
+    return d
+
+
 def decorations(spec):
     """(tag, decorated spec, same) – `same` = the decoration must leave the meaning of the
     base specification unchanged (otherwise the expectation comes from the oracle)."""
@@ -410,6 +420,7 @@ def decorations(spec):
         yield f"comment_list@{n}", at(lambda o: o.__setitem__(
             "_refs", ["nowhere", _junk(first, False)])), True
         yield f"ignored_value@{n}", at(lambda o: o.__setitem__("aux", _junk(first))), True
+        yield f"comment_plate@{n}", at(lambda o: o.__setitem__("_plate", _junk_plate(first, False))), True
         yield f"ignore_false@{n}", at(lambda o: o.__setitem__("ignore", False)), False
         tname = si.short_type(walk(spec)[0][n][0])
         for k, alias in enumerate(si.TYPE_NAMES[tname][1:]):
@@ -422,13 +433,13 @@ def decorations(spec):
 
 
 def list_ops(spec):
-    """list-level decorations: insert an ignored object (three kinds) at every position of
-    every list; mark every inline list element as ignored"""
+    """list-level decorations: insert an ignored object (four kinds, one of them an ignored plate)
+    at every position of every list; mark every inline list element as ignored"""
     objs, lists = walk(spec)
     ops = []
     for li, (lst, _) in enumerate(lists):
         for pos in range(len(lst) + 1):
-            for kind in ("dupid", "fresh", "tree"):
+            for kind in ("dupid", "fresh", "tree", "plate"):
                 ops.append(("ins", li, pos, kind))
     for n, (_, plist, _) in enumerate(objs):
         if plist is not None:
@@ -453,7 +464,8 @@ def apply_ops(spec, ops):
     for op in reversed(sorted(ins, key=lambda o: (o[1], o[2]))):
         _, li, pos, kind = op
         lst, cat = lists[li]
-        junk = {"dupid": _junk(first), "fresh": _junk("zz")}.get(kind) or _junk_tree(cat or "m", first)
+        junk = {"dupid": _junk(first), "fresh": _junk("zz"), "plate": _junk_plate(first)}.get(kind) \
+            or _junk_tree(cat or "m", first)
         lst.insert(pos, junk)
     return s
 
